@@ -22,6 +22,7 @@ EXPLANATION = (
     "min over peers.  R3b: Net's Tick iterator ticks every peer (shared with C20 R6).  R2b: can_fit_chunk bounds the 8-bit chunk counter (shared with C04 B7).  R4 (resend request plumbing): request_resend is set on the non-Current edge of the sequence update and "
     "feed_impl reaches resend on the request_resend && Online edge."
 )
+EXPLANATION += ("  Round 4: R3 (c') has_triggered_edge consumes the send timer -- in tick() every path from such a call to a return takes its `not fired` edge or reaches tick_action (a consumed timer whose action is skipped is never armed again); the trigger relation deadline <= now is looked for in the closure form and in the match form.  The resend admission analysis (shared with C04 B7) no longer depends on the local's name: admission edges are the true edges of tests of can_fit_chunk(..), of `<sent packet>.num_chunks == 0`, or of a bool local that holds such a decision.")
 ASSUMPTIONS = [
     "the `optional` crate's none value for u64 is u64::MAX and Optioned orders by OptOrd (external crate, not analysed)",
     "caller-supplied Callback implementations return",
